@@ -11,6 +11,7 @@ import Driver.OpDec
 import Driver.OpBuild
 import Driver.OpBody
 import Driver.OpMerged
+import Driver.OpTextW
 import Driver.OpParseB
 import Driver.OpExpand
 import Driver.OpJBody
@@ -81,6 +82,7 @@ def handle (st : St) (line : String) : St × String :=
   else if line.startsWith "BUILD " then (st, buildLine (line.drop 6).toString)
   else if line.startsWith "BODY " then (st, bodyLine (line.drop 5).toString)
   else if line.startsWith "MERGE " then (st, mergedLine (line.drop 6).toString)
+  else if line.startsWith "TEXTW " then (st, textwLine (line.drop 6).toString)
   else if line.startsWith "PARSEB " then (st, parsebLine (line.drop 7).toString)
   else if line.startsWith "EXPAND " then (st, expandLine (line.drop 7).toString)
   else if line.startsWith "JBODY " then (st, jbodyLine (line.drop 6).toString)
